@@ -696,9 +696,11 @@ impl Pool {
             }
         };
 
+        let mut shard_numbers = Vec::new();
+
         for (shard_idx, shard) in &self.shards {
             match shard_idx.parse::<usize>() {
-                Ok(_) => (),
+                Ok(shard_number) => shard_numbers.push(shard_number),
                 Err(_) => {
                     error!(
                         "Shard '{}' is not a valid number, shards must be numbered starting at 0",
@@ -708,6 +710,20 @@ impl Pool {
                 }
             };
             shard.validate()?;
+        }
+
+        // The shard number is used as an index into per-shard tables and is what clients
+        // select with SET SHARD: the numbers have to be exactly 0, 1, ..., n-1.
+        shard_numbers.sort_unstable();
+        for (expected, shard_number) in shard_numbers.iter().enumerate() {
+            if *shard_number != expected {
+                error!(
+                    "Shards must be numbered 0 to {} without gaps or duplicates, got {:?}",
+                    shard_numbers.len().saturating_sub(1),
+                    self.shards.keys().collect::<Vec<_>>()
+                );
+                return Err(Error::BadConfig);
+            }
         }
 
         for (option, name) in [
